@@ -202,11 +202,22 @@ class VC:
             if sw["block"] not in reg or sw["ty"] != "bool":
                 continue
             t = N.norm(sw["term"])
+            tr, fl = M.truth_edges(sw)
+            # json[key].is_null()
+            tt, neg = t, False
+            while tt.op == "unop" and tt.name == "Not":
+                neg = not neg
+                tt = tt.args[0]
+            if tt.op == "call" and re.search(r"^serde_json::value::Value::is_null$", tt.meta.get("tdef", "")) and tt.args and tt.args[0].op == "call" and \
+                    re.search(r"for serde_json::value::Value>::index$", tt.args[0].name) and tt.args[0].args[0] == self.json and tt.args[0].args[1] == key_n:
+                null_edge, nn_edge = ((sw["block"], fl), (sw["block"], tr)) if neg else ((sw["block"], tr), (sw["block"], fl))
+                e_nn.append(nn_edge)
+                null_fail = null_edge
+                continue
             eq = M.as_equality(t)
             if not eq:
                 continue
             a, b, pos, kind = eq
-            tr, fl = M.truth_edges(sw)
             eq_edge = (sw["block"], tr if pos else fl)
             ne_edge = (sw["block"], fl if pos else tr)
 
@@ -222,6 +233,8 @@ class VC:
                 r = x.args[0]
                 return r.op == "tryok" and r.args[0].op == "call" and bool(re.search(r"^serde_json::value::to_value", r.args[0].meta.get("tdef", ""))) and r.args[0].args[0] == N.norm(exp_t)
             full = bool(re.search(r"serde_json::value::Value as core::cmp::PartialEq>", kind))
+            if False:
+                pass
             if full and ((is_json_idx(a) and is_null(b)) or (is_json_idx(b) and is_null(a))):
                 e_nn.append(ne_edge)
                 null_fail = eq_edge
